@@ -115,6 +115,17 @@ theorem C13_nested (a : Arch) (hn : a.nmi = true) (handler : List (Instr × UInt
   rw [this]; show (execList (preDispatch a) handler).iff1 = false
   rw [h1]; exact (C13_accept_fields a hn).2.2.2.2.1
 
+/-- the request is a latch, not a counter: raising it again before a step has consumed it changes nothing,
+    so two requests without a step in between are serviced once -/
+theorem C13_request_idempotent (c : Cpu) : c.nmiRequest.nmiRequest = c.nmiRequest := rfl
+
+/-- ... and the one acceptance consumes it -/
+theorem C13_request_consumed (c : Cpu) :
+    (step c.nmiRequest.nmiRequest).1.arch.nmi = false := by
+  have h : (c.nmiRequest.nmiRequest.arch.halt && !c.nmiRequest.nmiRequest.arch.wakes) = false := by
+    simp [Cpu.nmiRequest, Arch.wakes]
+  exact (stepArch_latches _ h).2
+
 /-- non-vacuity: NMI with IFF1 = 1 and a pending maskable request -/
 example :
     let a : Arch := { bus := { mem := #[0, 0, 0, 0] }, reg := { pc := 0x0102, sp := 4 }, iff1 := true, iff2 := false,
